@@ -413,12 +413,12 @@ class Exec:
     def module_attr(self, modname: str, name: str, st=None):
         if modname == "builtins":
             return self.builtin(name)
-        mod = load_module(modname)
-        if mod is None:
-            return bm.external_attr(self, modname, name)
         ov = self.db.const_overrides.get((modname, name))
         if ov is not None:
             return ov
+        mod = load_module(modname)
+        if mod is None:
+            return bm.external_attr(self, modname, name)
         if name in mod.defs:
             node = mod.defs[name]
             if isinstance(node, ast.ClassDef):
